@@ -1939,7 +1939,10 @@ func decodeExtendedIpv4TunnelEgress(data *[]byte) (SFlowExtendedIpv4TunnelEgress
 	*data, fdf = (*data)[4:], SFlowFlowDataFormat(binary.BigEndian.Uint32((*data)[:4]))
 	rec.EnterpriseID, rec.Format = fdf.decode()
 	*data, rec.FlowDataLength = (*data)[4:], binary.BigEndian.Uint32((*data)[:4])
-	rec.SFlowIpv4Record, _ = decodeSFlowIpv4Record(data)
+	var err error
+	if rec.SFlowIpv4Record, err = decodeSFlowIpv4Record(data); err != nil {
+		return rec, err
+	}
 
 	return rec, nil
 }
@@ -1974,7 +1977,10 @@ func decodeExtendedIpv4TunnelIngress(data *[]byte) (SFlowExtendedIpv4TunnelIngre
 	*data, fdf = (*data)[4:], SFlowFlowDataFormat(binary.BigEndian.Uint32((*data)[:4]))
 	rec.EnterpriseID, rec.Format = fdf.decode()
 	*data, rec.FlowDataLength = (*data)[4:], binary.BigEndian.Uint32((*data)[:4])
-	rec.SFlowIpv4Record, _ = decodeSFlowIpv4Record(data)
+	var err error
+	if rec.SFlowIpv4Record, err = decodeSFlowIpv4Record(data); err != nil {
+		return rec, err
+	}
 
 	return rec, nil
 }
@@ -2009,7 +2015,10 @@ func decodeExtendedIpv6TunnelEgress(data *[]byte) (SFlowExtendedIpv6TunnelEgress
 	*data, fdf = (*data)[4:], SFlowFlowDataFormat(binary.BigEndian.Uint32((*data)[:4]))
 	rec.EnterpriseID, rec.Format = fdf.decode()
 	*data, rec.FlowDataLength = (*data)[4:], binary.BigEndian.Uint32((*data)[:4])
-	rec.SFlowIpv6Record, _ = decodeSFlowIpv6Record(data)
+	var err error
+	if rec.SFlowIpv6Record, err = decodeSFlowIpv6Record(data); err != nil {
+		return rec, err
+	}
 
 	return rec, nil
 }
@@ -2044,7 +2053,10 @@ func decodeExtendedIpv6TunnelIngress(data *[]byte) (SFlowExtendedIpv6TunnelIngre
 	*data, fdf = (*data)[4:], SFlowFlowDataFormat(binary.BigEndian.Uint32((*data)[:4]))
 	rec.EnterpriseID, rec.Format = fdf.decode()
 	*data, rec.FlowDataLength = (*data)[4:], binary.BigEndian.Uint32((*data)[:4])
-	rec.SFlowIpv6Record, _ = decodeSFlowIpv6Record(data)
+	var err error
+	if rec.SFlowIpv6Record, err = decodeSFlowIpv6Record(data); err != nil {
+		return rec, err
+	}
 
 	return rec, nil
 }
